@@ -46,6 +46,12 @@ ALPHABET = {
     'drip': ('drip', F(2, b'd', fin=0), F(0, b'd', fin=0), 40, 0.4),
 }
 STEPS = sorted(ALPHABET)
+# not part of the exhaustive alphabet (cost): 20 s of binary messages whose frame is exactly one receive buffer (65536
+# bytes), one every 0.1 s - every read the loop makes comes back full, the selector never times out.  Timeouts and Poll
+# are owed all the same (a read that filled the buffer says nothing about what the peer has answered)
+_FULL = F(2, b'f' * 65532)
+assert len(_FULL) == 65536
+EXTRA_STEPS = {'flood': ('drip', _FULL, _FULL, 200, 0.1)}
 
 
 def _z(data, style):
@@ -120,6 +126,8 @@ def cases(tier, seed, i, n):
                     for k in (1, 2, 3):
                         for fk in ('reset', 'timeout', 'runtime', 'reset-braces', 'eintr-partial'):
                             yield dict(kind='hist', hs=hs, seq=seq, seg='perstep', faults=[[op, k, fk]])
+        for seq in (['flood'], ['text', 'flood'], ['ping', 'flood']):
+            yield dict(kind='hist', hs='ok', seq=seq, seg='perstep')
         for c in connect_phase_cases():
             yield c
         # the loop's own tear-down (server hung up / closed / protocol error) races session.close() made on another
@@ -263,7 +271,7 @@ def one(case, pn, tn, acc, cw=None):
         cuts.add(hl)
     off = hl
     for s in case['seq']:
-        st = ALPHABET[s]
+        st = ALPHABET.get(s) or EXTRA_STEPS[s]
         steps.append(st)
         if st[0] == 'raw':
             off += len(st[1])
@@ -278,7 +286,7 @@ def one(case, pn, tn, acc, cw=None):
     ckw, horizon = TIMERS[tn]
     faults = {(f[0], f[1]): f[2] for f in case.get('faults', ())}
     w = H.World(H.hs_server(steps, spec), cuts=cuts, horizon=horizon, budget=20000, faults=faults,
-                stop_at=max(horizon, 18.0) if 'drip' in case['seq'] else None)
+                stop_at=max(horizon, 18.0) if ('drip' in case['seq'] or 'flood' in case['seq']) else None)
     # "every server behaviour, every application reaction and every fault" - for whatever URL the application has:
     # explicit ports, userinfo, IPv6 literals, resources and queries outside ASCII
     url = URL_SHAPES[(len(case['seq']) * 7 + len(pn) + len(tn) + len(hsname)) % len(URL_SHAPES)]
@@ -292,7 +300,7 @@ def one(case, pn, tn, acc, cw=None):
     if run.end == 'stop' and (len(case['seq']) + len(pn) + len(tn)) % 3 == 0:
         # the same history once more on the SAME WebSocket object (reconnect): same grammar
         w2 = H.World(H.hs_server(steps, spec), cuts=cuts, horizon=horizon, budget=20000,
-                     stop_at=max(horizon, 18.0) + 7.25 if 'drip' in case['seq'] else None)
+                     stop_at=max(horizon, 18.0) + 7.25 if ('drip' in case['seq'] or 'flood' in case['seq']) else None)
         w2.now = 7.25      # a later instant on the clock
         run2 = H.drive(w2, ws=run.ws, connect_kwargs=ckw, policy=H.TablePolicy(POLICIES[pn]))
         acc.count2('oracle', 'reconnect_runs')
